@@ -732,14 +732,19 @@ func (i *InvoiceRegistry) cancelSingleHtlc(invoiceRef InvoiceRef,
 	if err != nil {
 		return err
 	}
-	if !updated {
-		return nil
-	}
 
-	// The invoice has been updated. Notify subscribers of the htlc
-	// resolution.
+	// Notify subscribers of the htlc resolution. This is also done if the
+	// htlc was found canceled already: this method runs without the
+	// registry lock, so an earlier timer of the same htlc may have canceled
+	// it while a replay of the htlc, which read it as accepted, had not
+	// subscribed yet. That replay started the timer that brought us here.
+	// Signaling a cancellation twice doesn't hurt.
 	htlc, ok := invoice.Htlcs[key]
-	if !ok {
+	switch {
+	case !ok && !updated:
+		return nil
+
+	case !ok:
 		return fmt.Errorf("htlc %v not found", key)
 	}
 	if htlc.State == HtlcStateCanceled {
